@@ -1276,3 +1276,11 @@ val schema_67 : ty
 val schema_68 : ty
 
 val all_schemas : (n * ty) list
+
+val insert_asc : n -> n list -> n list
+
+val sort_asc : n list -> n list
+
+val index_of : n -> n list -> n -> n option
+
+val text_remap : n list -> n list -> (n list * n) outcome
